@@ -466,6 +466,27 @@ pub fn c08(tier: Tier) -> PropSpec {
                 || proptest::collection::vec(any::<u8>(), 1..14).boxed(),
                 c08_tokens,
             ),
+            // the CLI clause: no answer for malformed text in any library mode
+            Part::with_shrink(
+                "cli-reject",
+                tier.pick(60, 600),
+                300,
+                || {
+                    (
+                        crate::props::cli::cli_adf(1, 4, 1),
+                        prop_oneof![
+                            any::<u16>().prop_map(Mutation::DelBracket),
+                            (any::<u16>(), any::<bool>()).prop_map(|(a, b)| Mutation::InsBracket(a, b)),
+                            any::<u16>().prop_map(Mutation::DelDot),
+                            (any::<u16>(), 0u8..6).prop_map(|(a, b)| Mutation::Arity(a, b)),
+                            any::<u8>().prop_map(Mutation::Garbage),
+                        ],
+                    )
+                        .prop_map(|(adf, m)| MutCase { adf, m })
+                        .boxed()
+                },
+                crate::props::cli::cli_reject_check,
+            ),
         ],
     }
 }
